@@ -314,9 +314,9 @@ static void sec_basic(const Args &A) {
 	}
 	mpz_t z; mpz_init(z);
 	// mpz_sizeinbase(., 62) depends on the bit length only: all bit lengths around the limits, a stride elsewhere
-	unsigned long hi = A.thorough() ? 40000 : 17000;
+	unsigned long hi = A.thorough() ? 24000 : 17000;
 	for (unsigned long b = 1; b <= hi; b++) {
-		bool pick = b < 600 || (b > 12100 && b < 12300) || (b > 16300 && b < 16500) || b % (A.thorough() ? 7 : 61) == 0;
+		bool pick = b < 600 || (b > 12100 && b < 12300) || (b > 16300 && b < 16500) || b % (A.thorough() ? 23 : 61) == 0;
 		if (!pick) continue;
 		mpz_set_ui(z, 1); mpz_mul_2exp(z, z, b - 1);
 		Rec("sizeinbase").z(z).u(mpz_sizeinbase(z, 62));
@@ -642,7 +642,7 @@ template<class T> static void for_variant(const Args &A, const std::string &sec,
 	} else if (sec == "fault") {
 		fault_mode<T>(A, md, th ? 1 : (md.e ? 9 : 4), shard);
 	} else if (sec == "long") {
-		long_mode<T>(A, md, th ? 6 : 2);
+		long_mode<T>(A, md, th ? 4 : 2);
 		garbage_mode<T>(A, md, th ? 30 : 10);
 		neg_mode<T>(md);
 	} else if (sec == "enc") {
